@@ -116,6 +116,14 @@ TIMEOUTS_T = 'deadpool::managed::config::Timeouts'
 QMODE_T = 'deadpool::managed::config::QueueMode'
 
 
+def _is_none(an, op):
+    """the operand is an absent Option: the literal None or `<Option<_> as Default>::default()` (what a derived Default writes)"""
+    if 'None' in an.resolve_operand(op):
+        return True
+    src = sources(an, op)
+    return bool(src) and all(x[0] == 'call' and x[1].startswith('<std::option::Option') and x[1].endswith('as std::default::Default>::default') for x in src)
+
+
 def ret_signature(prog, path, depth=0):
     """what a constructor-like function of the crate returns, as far as the defaults are concerned: ('Timeouts', (field values..))
     with 'None' for an absent timeout, ('QueueMode', variant) - followed through calls of other such functions; None = not understood"""
@@ -132,7 +140,7 @@ def ret_signature(prog, path, depth=0):
                 if s.rv.j['adt'] == QMODE_T:
                     sigs.add(('QueueMode', s.rv.j['variant']))
                 else:
-                    sigs.add(('Timeouts', tuple('None' if 'None' in an.resolve_operand(o) else '?' for o in s.rv.ops)))
+                    sigs.add(('Timeouts', tuple('None' if _is_none(an, o) else '?' for o in s.rv.ops)))
         t = blk.term
         if t.kind == 'call' and t.rcallee in prog.bodies and t.rcallee != path and t.dest is not None and t.dest.is_local():
             ty = b.locals[t.dest.local]['ty']
@@ -149,7 +157,7 @@ def operand_signature(prog, b, an, op):
             out.add(('QueueMode', x[1].split('::')[-1]))
         elif x[0] == 'agg' and x[1].startswith(TIMEOUTS_T):
             st = [s for s in b.blocks[x[2]].stmts if s.kind == 'assign' and s.rv.kind == 'agg' and s.rv.j.get('adt') == TIMEOUTS_T]
-            out.add(('Timeouts', tuple('None' if 'None' in an.resolve_operand(o) else '?' for o in st[0].rv.ops)) if st else None)
+            out.add(('Timeouts', tuple('None' if _is_none(an, o) else '?' for o in st[0].rv.ops)) if st else None)
         elif x[0] == 'call':
             t = b.blocks[x[2]].term
             out.add(ret_signature(prog, t.rcallee) if t.rcallee in prog.bodies else None)
@@ -425,7 +433,7 @@ def run(ctx):
                     if not blk.cleanup and st_.kind == 'assign' and st_.rv.kind == 'agg' and st_.rv.j.get('ak') == 'adt' and st_.rv.j.get('adt') == QMODE_T:
                         dsig.setdefault('QueueMode', set()).add(('QueueMode', st_.rv.j['variant']))
                     if not blk.cleanup and st_.kind == 'assign' and st_.rv.kind == 'agg' and st_.rv.j.get('ak') == 'adt' and st_.rv.j.get('adt') == TIMEOUTS_T:
-                        dsig.setdefault('Timeouts', set()).add(('Timeouts', tuple('None' if 'None' in an.resolve_operand(o) else '?' for o in st_.rv.ops)))
+                        dsig.setdefault('Timeouts', set()).add(('Timeouts', tuple('None' if _is_none(an, o) else '?' for o in st_.rv.ops)))
             want_sig = {'Timeouts': {('Timeouts', ('None', 'None', 'None'))}, 'QueueMode': {('QueueMode', 'Fifo')}}
             defaults = sorted(dsig)
             ctx.ob('R19.3', 'PoolConfig: only max_size is required; omitted timeouts / queue_mode take their defaults', missing == ['max_size'] and dsig == want_sig and sorted(fields) == ['max_size', 'queue_mode', 'timeouts'],
@@ -461,19 +469,10 @@ def run(ctx):
                         why = 'the field is skipped on some path (skip_serializing_if): a value that is not the default can be lost in a round trip'
                 ctx.ob('R19.3', '%s.%s is written on every path of Serialize' % (ty.split('::')[-1], f_), okw, ctx.where(b_), why if not okw else '', construct='serde-write:%s.%s' % (ty.split('::')[-1], f_))
         td = prog.bodies.get('<deadpool::managed::config::Timeouts as std::default::Default>::default')
-        tn = prog.body('deadpool::managed::config::Timeouts::new')
-        okt = False
-        if td is not None and tn is not None:
-            fw = [blk for blk in td.blocks if blk.term.kind == 'call' and blk.term.rcallee == tn.path]
-            aggs = [s for blk in (tn.blocks if fw else td.blocks) for s in blk.stmts if s.kind == 'assign' and s.rv.kind == 'agg' and s.rv.j.get('adt') == 'deadpool::managed::config::Timeouts']
-            tan = prog.an(tn if fw else td)
-            okt = len(aggs) == 1 and all('None' in tan.resolve_operand(o) for o in aggs[0].rv.ops) and len(aggs[0].rv.ops) == 3
+        okt = td is not None and ret_signature(prog, td.path) == ('Timeouts', ('None', 'None', 'None'))
         ctx.ob('R19.3', 'the default Timeouts are "no timeouts"', okt, ctx.where(td) if td else '', '', construct='default:Timeouts')
         qd = prog.bodies.get('<deadpool::managed::config::QueueMode as std::default::Default>::default')
-        okq = False
-        if qd is not None:
-            aggs = [s for blk in qd.blocks for s in blk.stmts if s.kind == 'assign' and s.rv.kind == 'agg' and s.rv.j.get('adt') == 'deadpool::managed::config::QueueMode']
-            okq = [s.rv.j['variant'] for s in aggs] == ['Fifo']
+        okq = qd is not None and ret_signature(prog, qd.path) == ('QueueMode', 'Fifo')
         ctx.ob('R19.3', 'the default queue mode is Fifo', okq, ctx.where(qd) if qd else '', '', construct='default:QueueMode')
         pn = prog.body('deadpool::managed::config::PoolConfig::new')
         if pn is not None:
